@@ -33,6 +33,8 @@
 #include "Model/ConsItem.hpp"
 #include "Model/Constraints.hpp"
 #include "Model/Model.hpp"
+#include "Model/ModelOptimSillsVario.hpp"
+#include "geoslib_old_f.h"
 #include "Model/Option_AutoFit.hpp"
 #include "Model/Option_VarioFit.hpp"
 #include "Neigh/NeighUnique.hpp"
@@ -61,6 +63,9 @@ static bool avoidEnv(const char* name)
 }
 static const bool AVOID_NEGATIVE_NPAR   = false || avoidEnv("npar");      // requests rejected by st_model_auto_count (exception instead of error)
 static const bool AVOID_EXOTIC_TYPES    = false || avoidEnv("exotic");    // MARKOV / sphere-only structures offered by CovFactory::getCovList in R^n
+// MARKOV: every CovAniso::setParam runs an FFT-based normalisation (ACovFunc::computeCorrec) -> one fit costs > 5 CPU minutes
+// in 3-D under ASan (measured, killed unfinished); excluded by default to keep the case budget, C17_WITH_MARKOV=1 re-enables.
+static const bool AVOID_MARKOV          = getenv("C17_WITH_MARKOV") == nullptr;
 static const bool AVOID_FLAG_INTRINSIC  = false || avoidEnv("intrinsic"); // Option_VarioFit::setFlagIntrinsic(true): st_sill_fitting_intrinsic indexes the never-sized RECINT.sill1
 // Goulard under constraints (constant total sill) costs minutes to hours per fit with the default maxiter=1000
 // whenever st_optimize_under_constraints is entered: every model evaluation of foxleg runs up to maxiter sweeps of
@@ -438,7 +443,11 @@ static void drawTypes(Rng& r, Cfg& g)
   std::vector<ECov> dimlimited, exotic;
   for (auto& ti : CATALOG)
   {
-    if (isExotic(ti.type)) { exotic.push_back(ti.type); continue; }
+    if (isExotic(ti.type))
+    {
+      if (!(AVOID_MARKOV && ti.type == ECov::MARKOV)) exotic.push_back(ti.type);
+      continue;
+    }
     if (ti.maxNDim > 0 && g.ndim > ti.maxNDim) { dimlimited.push_back(ti.type); continue; }
     offered.push_back(ti.type);
   }
@@ -757,7 +766,8 @@ static void validateModel(Ctx& c, const Cfg& g, Model* m, const std::string& ep,
       for (int d = 0; d < g.ndim; d++)
       {
         double rg = cv->getRange(d);
-        if (!(std::isfinite(rg) && rg > 0 && !FFFF(rg))) ok = false;
+        if (!(std::isfinite(rg) && rg > 0)) ok = false;
+        if (std::isfinite(rg) && rg > 1e30) c.probe("range-above-1e30"); // positive, but beyond the library's own "undefined" marker
         det += fmt("%g ", rg);
       }
       c.truth("range-pos", "C17:range:not-positive:" + kcls, ok, fmt("structure %d (%s) ranges %s", k, tk.c_str(), det.c_str()));
@@ -1031,6 +1041,111 @@ static void useModel(Rng& r, Ctx& c, const Cfg& g, Model* m)
   else c.probe("kriging-defined");
 }
 
+
+// ------------------------------------------------------------------------------------------------
+// sill fitting alone (Goulard) on a model whose structures, ranges and rotations are given:
+// ModelOptimSillsVario::fit (AModelOptimSills.cpp) and model_fitting_sills (model_auto.cpp)
+// ------------------------------------------------------------------------------------------------
+static void sillsCase(Rng& r, Ctx& c, Cfg& g, Vario* vario, double gmax)
+{
+  bool newApi  = r.coin(0.6);
+  bool constS  = r.coin(0.3);
+  bool expand  = !r.coin(0.2); // Constraints::expandConstantSill(nvar) called by the user or not
+  double cs    = r.coin(0.6) ? 1. : r.loguni(0.1, 10.);
+  int wmode    = g.wmode;
+  int maxiter  = constS ? std::min(g.maxiter, CONSTSILL_MAXITER) : g.maxiter;
+  std::string ep = newApi ? "ModelOptimSillsVario" : "model_fitting_sills";
+  c.setSig(fmt("sills:%s:src=%s:ndim=%d:nvar=%d:ndir=%d:patho=%s:nt=%zu:constsill=%d:expand=%d:wmode=%d", ep.c_str(), SRCN[g.src], g.ndim, g.nvar,
+               g.ndir, PATN[g.patho], g.types.size(), constS, expand, wmode));
+  c.puts("entry", ep);
+  c.puts("types", typesKey(g));
+  if (c.verbose) fprintf(stderr, "CFG %s types=%s maxiter=%d\n", c.sig.c_str(), typesKey(g).c_str(), maxiter);
+  double hmax = g.npas * g.dpas;
+  std::unique_ptr<Model> model(Model::createFromEnvironment(g.nvar, g.ndim));
+  VectorDouble ident(g.nvar * g.nvar, 0.);
+  for (int i = 0; i < g.nvar; i++) ident[i * g.nvar + i] = 1.;
+  for (auto& t : g.types)
+  {
+    const TypeInfo& ti = tinfo(t);
+    VectorDouble ranges(g.ndim), angles(g.ndim, 0.);
+    double r0 = hmax * r.uni(0.1, 1.2);
+    for (int d = 0; d < g.ndim; d++) ranges[d] = r0 * (d == 0 || r.coin(0.5) ? 1. : r.uni(0.3, 3.));
+    if (g.ndim >= 2) angles[0] = r.coin(0.5) ? 0. : r.uni(-90, 90);
+    double par = 1.;
+    if (ti.hasParam) par = (ti.parMax > 0 && !FFFF(ti.parMax)) ? r.uni(0.2, std::min(ti.parMax, 2.) * 0.95) : r.uni(0.2, 2.);
+    model->addCovFromParam(t, 0., 0., par, ranges, ident, angles);
+  }
+  if (model->getCovaNumber() != (int)g.types.size()) throw SkipCase{"sills:model-construction"};
+  Option_AutoFit oa;
+  oa.setWmode(wmode);
+  oa.setMaxiter(maxiter);
+  Option_VarioFit ov;
+  Constraints cons;
+  if (constS)
+  {
+    cons.setConstantSillValue(cs);
+    if (expand) cons.expandConstantSill(g.nvar);
+  }
+  int err = 0;
+  try
+  {
+    if (newApi)
+    {
+      ModelOptimSillsVario mo(model.get(), &cons, oa, ov);
+      err = mo.fit(vario, wmode);
+    }
+    else
+      err = model_fitting_sills(vario, model.get(), cons, ov, oa);
+  }
+  catch (const std::exception& e)
+  {
+    c.check("no-exception", "C17:sills:exception:" + ep, false, 1, 0, std::string(e.what()).substr(0, 160));
+    return;
+  }
+  c.putn("err", err);
+  if (err != 0) { c.probe("sills-reported-failure"); c.truth("fit-reports-failure", "C17:unreachable", true, ""); return; }
+  c.probe("sills-ok");
+  bool csMulti = constS && g.nvar > 1;
+  for (int k = 0; k < model->getCovaNumber(); k++)
+  {
+    const CovAniso* cv = model->getCova(k);
+    std::string tk     = std::string(cv->getType().getKey());
+    Mat S(g.nvar, g.nvar);
+    bool fin = true;
+    double tr = 0, mx = 0;
+    for (int i = 0; i < g.nvar; i++)
+      for (int j = 0; j < g.nvar; j++)
+      {
+        double v = cv->getSill(i, j);
+        if (!std::isfinite(v) || FFFF(v)) fin = false;
+        S(i, j) = v;
+        mx      = std::max(mx, std::fabs(v));
+        if (i == j) tr += v;
+      }
+    if (!fin)
+      c.check("sills-psd", std::string("C17:sills:not-finite:") + ep + (csMulti ? ":constant-sill-multivariate" : (constS ? ":constant-sill" : "")), false, INFINITY, 0,
+              fmt("structure %d (%s)", k, tk.c_str()));
+    else
+    {
+      auto ev    = ref::eigsym(S);
+      double tol = 1e3 * EPS * std::max(std::fabs(tr), mx);
+      double neg = std::max(0., -(double)ev[0]);
+      c.check("sills-psd", "C17:sills:not-psd:" + ep + fmt(":nvar=%d", g.nvar) + (constS ? ":constant-sill" : ""), neg <= tol, neg, tol,
+              fmt("structure %d (%s): min eigenvalue %.6g trace %.6g", k, tk.c_str(), (double)ev[0], tr));
+    }
+  }
+  if (constS)
+    for (int iv = 0; iv < g.nvar; iv++)
+    {
+      double tot = 0;
+      for (int k = 0; k < model->getCovaNumber(); k++) tot += model->getCova(k)->getSill(iv, iv);
+      double tol = 1e-6 * cs + 1e4 * EPS * gmax;
+      double e   = std::isfinite(tot) ? std::fabs(tot - cs) : INFINITY;
+      c.check("sills-constsill", std::string("C17:sills:constant-sill:") + ep + (csMulti ? ":multivariate" : ":nvar=1"), e <= tol, e, tol,
+              fmt("variable %d total sill %.10g requested %.10g", iv, tot, cs));
+    }
+}
+
 // ------------------------------------------------------------------------------------------------
 static void run_case_inner(Rng& r, Ctx& c);
 static void run_case(Rng& r, Ctx& c)
@@ -1045,6 +1160,7 @@ static void run_case_inner(Rng& r, Ctx& c)
   buildCatalog();
   Cfg g = drawCfg(r, c.thorough());
   defineDefaultSpace(ESpaceType::RN, g.ndim);
+  bool sillsMode = r.coin(0.14);
 
   std::string optmask = fmt("%d%d%d%d%d%d%d%d%d%d", g.noreduce, g.authAniso, g.authRot, g.lockSameRot, g.lockRot2d,
                             g.lockNo3d, g.lockIso2d, g.goulard, g.keepIntstr, g.flagIntrinsic);
@@ -1116,6 +1232,13 @@ static void run_case_inner(Rng& r, Ctx& c)
     }
   }
   c.putn("gmax", gmax);
+
+  // ---- one case in seven exercises the sill fitting alone (drawn last so that the main stream of cases is unchanged)
+  if (vario && g.expectFail.empty() && !hasExotic(g) && sillsMode)
+  {
+    sillsCase(r, c, g, vario.get(), gmax);
+    return;
+  }
 
   // ---- options / constraints
   Option_VarioFit ov(g.noreduce, g.authAniso, g.authRot, g.lockSameRot, g.lockRot2d, g.lockNo3d, g.lockIso2d);
